@@ -19,8 +19,45 @@ def wl_inputs(v):
 MONITORS = {"write_continue": ("m_write_continue", wc_inputs), "write_lines": ("m_write_lines_e2e", wl_inputs)}
 
 
+def writer_wiring(ctx):
+    """call-site side of write_continue's contract: the limit it respects is self.linelen and the marker it appends is
+    self.cont -- each emitter binds them to the option / marker of ITS language in its constructor:
+    Wrapf: F_line_length, ' &';  Wrapc / Wrapp / Wrapl: C_line_length, ''."""
+    import ast
+    import os
+    from checklib import REPO
+    want = {"wrapf.py": ("Wrapf", "F_line_length", " &"), "wrapc.py": ("Wrapc", "C_line_length", ""),
+            "wrapp.py": ("Wrapp", "C_line_length", ""), "wrapl.py": ("Wrapl", "C_line_length", "")}
+    confirm = lambda: ctx.monitor("m_linelen_e2e", "search", 6, ctx.seed)
+    for fn, (cls, opt, cont) in sorted(want.items()):
+        tree = ast.parse(open(os.path.join(REPO, "shroud", fn)).read())
+        c = [n for n in tree.body if isinstance(n, ast.ClassDef) and n.name == cls]
+        init = [m for m in (c[0].body if c else []) if isinstance(m, ast.FunctionDef) and m.name == "__init__"]
+        got_len, got_cont = None, None
+        for st in (init[0].body if init else []):
+            if isinstance(st, ast.Assign) and len(st.targets) == 1 and isinstance(st.targets[0], ast.Attribute) \
+                    and isinstance(st.targets[0].value, ast.Name) and st.targets[0].value.id == "self":
+                if st.targets[0].attr == "linelen":
+                    got_len = ast.unparse(st.value)
+                if st.targets[0].attr == "cont" and isinstance(st.value, ast.Constant):
+                    got_cont = st.value.value
+        ctx.item("C13/W1/%s.__init__:linelen" % cls, got_len is not None and got_len.endswith("options." + opt),
+                 "%s.__init__ binds self.linelen to %r, the limit for this language is options.%s" % (cls, got_len, opt),
+                 sample={"class": cls, "linelen": got_len}, confirm=confirm, shape=True)
+        ctx.item("C13/W1/%s.__init__:cont" % cls, got_cont == cont,
+                 "%s.__init__ binds self.cont to %r, the continuation marker of this language is %r" % (cls, got_cont, cont),
+                 sample={"class": cls, "cont": got_cont}, confirm=confirm, shape=True)
+
+
 def run(ctx):
     ctx.pyvc([write_continue, write_lines], MONITORS)
+    writer_wiring(ctx)
+    r0 = ctx.monitor("m_linelen_e2e", "search", 6, ctx.seed)
+    ctx.bounded.append({"monitor": "m_linelen_e2e", "inputs_tried": r0["tried"], "violation": r0["violation"],
+                        "kind": "bounded: the driver with F_line_length != C_line_length: every argument-list line of the Fortran files "
+                                "fits F_line_length, of the C files C_line_length"})
+    if r0["violation"]:
+        ctx.violation("bounded/m_linelen_e2e", {"inputs": r0["inputs"], "observed": r0["violation"]}, True)
     ctx.trusted += [
         "pyvc (Python AST -> path VCs; SMT-LIB via z3 API), z3 5.1, cvc5 1.0.3",
         "Python str as sequences of code points; ints mathematical (exact for Python)",
